@@ -307,12 +307,13 @@ int assemble_code(
     return -1;
   }
 
-  uint32_t address;
-
-  for (address = asm_context.memory.low_address;
-       address <= asm_context.memory.high_address;
-       address++)
+  // 64 bit counter: high_address can be 0xffffffff and a 32 bit one would wrap.
+  for (uint64_t a = asm_context.memory.low_address;
+       a <= asm_context.memory.high_address;
+       a++)
   {
+    const uint32_t address = (uint32_t)a;
+
     uint8_t value = asm_context.memory.read8(address);
     util_context.memory.write8(address, value);
   }
